@@ -16,6 +16,8 @@ type hnswOpts struct {
 	adversary  bool // remove the entry point / highest-level / hub vertices
 	gauss      bool
 	smallOnly  bool // keep at most 2*M resident vertices (exactness clause)
+	mass       int  // > 0: that many adds, then three quarters of them removed in insertion order (no flush), then
+	// searches with a tiny ef: the walk has to cross the removed region to the live vectors
 }
 
 type hnswParams struct{ dim, metric, m, efc, efs int }
@@ -64,6 +66,7 @@ func runHNSWHistory(r *rand.Rand, p hnswParams, o hnswOpts, t *Trace) *Case {
 	nextID := uint32(1)
 	var forced []float32 // query of the next search (the vector of a just-removed entry point)
 	flushFirst := false  // the next operation is an explicit Flush (then the forced search)
+	forceEf := 0         // the ef of the next search
 	efDefault := 0       // > 0 once SetEfSearch has replaced the index's search-time ef
 	dump := func() {
 		st := comet.VerifHNSWSnapshot(idx)
@@ -89,6 +92,24 @@ func runHNSWHistory(r *rand.Rand, p hnswParams, o hnswOpts, t *Trace) *Case {
 		}
 		if flushFirst {
 			x, flushFirst = 60, false // ... after an explicit Flush, when the upper layers were emptied
+		}
+		var massTarget uint32
+		if o.mass > 0 {
+			switch {
+			case step < o.mass:
+				x = 0
+			case step < o.mass+3*o.mass/4 && step-o.mass < len(resident):
+				x, massTarget = 45, resident[step-o.mass].id
+			default:
+				x = 99
+				for _, lv := range resident {
+					if !removed[lv.id] {
+						forced = cloneVec(lv.raw)
+						break
+					}
+				}
+				forceEf = []int{p.m, 1, 2}[r.Intn(3)]
+			}
 		}
 		if r.Intn(25) == 0 {
 			// SetEfSearch: from now on a search that names no ef of its own uses this one
@@ -246,6 +267,9 @@ func runHNSWHistory(r *rand.Rand, p hnswParams, o hnswOpts, t *Trace) *Case {
 			default:
 				id = uint32(500 + r.Intn(5))
 			}
+			if massTarget != 0 {
+				id = massTarget
+			}
 			e := idx.Remove(*comet.NewVectorNodeWithID(id, nil))
 			code := errCode(e)
 			ops = append(ops, func(c *Case) { c.N(2).U(uint64(id)).N(code) })
@@ -343,6 +367,9 @@ func runHNSWHistory(r *rand.Rand, p hnswParams, o hnswOpts, t *Trace) *Case {
 			}
 			efs := []int{0, -1, p.m, 4 * (n + 1), 1, p.efs}
 			ef := efs[r.Intn(len(efs))]
+			if forceEf != 0 {
+				ef, forceEf = forceEf, 0
+			}
 			s := idx.NewSearch().WithScoreAggregation(aggs[aggz])
 			if r.Intn(8) == 0 { // builder defaults: k 10, no threshold, no cutoff, the index's own efSearch
 				k = 10
@@ -445,6 +472,14 @@ func genC12(r *rand.Rand, t *Trace, thorough bool) {
 			tag = "hnsw.large"
 		}
 		t.Emit(runHNSWHistory(r, p, o, t), tag)
+	}
+	for it := 0; it < 2+n/30; it++ {
+		// mass removal without a flush, then searches with a tiny ef: never empty while a live vector exists
+		p := rndHNSWParams(r)
+		p.dim, p.m, p.efs = 1+r.Intn(2), []int{2, 4}[r.Intn(2)], 4
+		mass := 120 + r.Intn(80)
+		o := hnswOpts{nops: mass + 3*mass/4 + 3, mass: mass, gauss: true}
+		t.Emit(runHNSWHistory(r, p, o, t), "hnsw.mass_removal")
 	}
 	for it := 0; it < 4+n/30; it++ {
 		runHybridHNSWDiff(r, t) // the exactness clause seen through the hybrid index
